@@ -27,6 +27,7 @@
 #include <unistd.h>             /* getpid() */
 
 #include "signals.h"
+#include "verif.h"
 
 
 #define EX_FAIL 1
@@ -176,6 +177,7 @@ cli(void)
 
   foreach (sig, handled_signals)
     xaction(*sig, signal_handler);
+  VERIF_EV("\"e\":\"Cli\",\"blk\":%d", verif_sigblk());
 }
 
 
@@ -188,7 +190,9 @@ sti(void)
   foreach (sig, handled_signals)
     xaction(*sig, SIG_DFL);
 
+  VERIF_EV("\"e\":\"Sti\",\"blk\":%d", verif_sigblk());
   xmask(SIG_UNBLOCK, &handled, NULL);
+  VERIF_EV("\"e\":\"StiDone\",\"blk\":%d", verif_sigblk());
 }
 
 
@@ -202,6 +206,7 @@ terminate(int sig)
      sense here. 24-OCT-2009 lacos */
   xaction(sig, SIG_DFL);
   xraise(sig);
+  VERIF_EV("\"e\":\"Terminate\",\"sig\":%d", sig);
 
   xempty(&set);
   xadd(&set, sig);
@@ -240,6 +245,7 @@ halt(void)
 
   sig = handled_signals[caught_index];
   assert(xmember(&handled, sig));
+  VERIF_EV("\"e\":\"Halt\",\"sig\":%d,\"blk\":%d", sig, verif_sigblk());
 
   switch (sig) {
   default:
@@ -303,6 +309,7 @@ void
 bailout(void)
 {
   if (pthread_equal(pthread_self(), main_thread)) {
+    VERIF_EV("\"e\":\"BailoutMain\"");
     cleanup();
     gcov_flush();
     xmask(SIG_UNBLOCK, &blocked, NULL);
@@ -310,6 +317,7 @@ bailout(void)
   }
 
   promote();
+  VERIF_EV("\"e\":\"BailoutSub\"");
   xraise(SIGUSR1);
   pthread_exit(NULL);
 }
